@@ -293,14 +293,56 @@ func (e *Engine) registerVerifyIntrinsics() {
 			}
 			return res
 		}
-		for _, p := range list.Data {
+		kinds := r.callFunc(fr, gp.Func("vfsListKinds"), []Value{fsys.dir}, nil).(SliceV)
+		// fs.WalkDir semantics of SkipDir: returned for a directory, its subtree is skipped; returned for a file, the
+		// remaining entries of the containing directory are skipped. Entries are relative paths; e is inside d iff
+		// its element list has d's as a proper prefix.
+		elemsOf := func(v Value) []StrV { el, _ := splitElems(v.(StrV)); return el }
+		sameEl := func(a, b StrV) bool {
+			e := r.strEqual(a, b)
+			if e.S != nil {
+				return r.branch(e.S)
+			}
+			return e.C
+		}
+		hasPrefix := func(e, d []StrV) bool {
+			if len(e) < len(d) {
+				return false
+			}
+			for i := range d {
+				if !sameEl(e[i], d[i]) {
+					return false
+				}
+			}
+			return true
+		}
+		skipped := make([]bool, len(list.Data))
+		for i, p := range list.Data {
+			if skipped[i] {
+				continue
+			}
 			res := r.call(fr, fn, []Value{p, Iface{}, Iface{}}).(Iface)
 			if res.T != nil {
 				if r.equal(nil, res, skipAll).C {
 					return Iface{}
 				}
 				if r.equal(nil, res, skipDir).C {
-					panic(unsupported("WalkDir stub: SkipDir"))
+					if i == 0 {
+						return Iface{} // SkipDir on the root of the walk ends it
+					}
+					me := elemsOf(p)
+					isDir := i < len(kinds.Data) && r.concreteInt(kinds.Data[i], "kind") == 1
+					for j := i + 1; j < len(list.Data); j++ {
+						ej := elemsOf(list.Data[j])
+						if isDir {
+							if len(ej) > len(me) && hasPrefix(ej, me) {
+								skipped[j] = true
+							}
+						} else if len(me) > 0 && len(ej) >= len(me) && hasPrefix(ej, me[:len(me)-1]) {
+							skipped[j] = true // a later entry of the same directory (or beneath one)
+						}
+					}
+					continue
 				}
 				return res
 			}
